@@ -46,6 +46,8 @@ type memNet struct {
 	// request of wonderwall's HTTP client (the identity provider calls): it is the
 	// scheduling/fault point for provider calls.
 	proxyHook func(r *http.Request) error
+	// down: addresses that refuse connections although a listener exists (setDown)
+	down map[string]bool
 }
 
 var (
@@ -97,9 +99,22 @@ func (n *memNet) listen(addr string) *memListener {
 	return l
 }
 
+// setDown makes every new connection to addr fail like a refused connection (down = true) or lets them through again.
+func (n *memNet) setDown(addr string, down bool) {
+	n.mu.Lock()
+	defer n.mu.Unlock()
+	if n.down == nil {
+		n.down = map[string]bool{}
+	}
+	n.down[addr] = down
+}
+
 func (n *memNet) dial(addr string) (net.Conn, error) {
 	n.mu.Lock()
 	l := n.listeners[addr]
+	if n.down[addr] {
+		l = nil
+	}
 	n.mu.Unlock()
 	if l == nil {
 		return nil, fmt.Errorf("memnet: connection refused: %s", addr)
